@@ -2467,21 +2467,36 @@ impl<T: PPGEvaluatorStrategy> PPGEvaluator<T> {
         new_signals: &mut Vec<Signal>,
         gen: &Generation,
     ) {
-        let upstreams = dag.neighbors_directed(node_idx, Direction::Incoming);
-        for upstream_idx in upstreams {
+        // walks up through not-ready ephemeral upstreams, depth first, in the order a recursion
+        // would - but with an explicit stack and every job only once: layered ephemerals have
+        // exponentially many paths, and a chain of them is as deep as the graph.
+        let mut frames: Vec<(Vec<NodeIndex>, usize)> = vec![(
+            dag.neighbors_directed(node_idx, Direction::Incoming)
+                .collect(),
+            0,
+        )];
+        let mut seen: HashSet<NodeIndex> = HashSet::new();
+        seen.insert(node_idx);
+        while let Some(frame) = frames.last_mut() {
+            if frame.1 >= frame.0.len() {
+                frames.pop();
+                continue;
+            }
+            let upstream_idx = frame.0[frame.1];
+            frame.1 += 1;
             match jobs[upstream_idx as usize].state {
                 JobState::Always(_) => {}
                 JobState::Output(_) => {}
                 JobState::Ephemeral(state) => match state {
                     JobStateEphemeral::NotReady(_) => {
                         //new_signals.push(NewSignal!(SignalKind::ConsiderJob,upstream_idx, jobs));
-                        Self::reconsider_delayed_upstreams(
-                            dag,
-                            jobs,
-                            upstream_idx,
-                            new_signals,
-                            gen,
-                        );
+                        if seen.insert(upstream_idx) {
+                            frames.push((
+                                dag.neighbors_directed(upstream_idx, Direction::Incoming)
+                                    .collect(),
+                                0,
+                            ));
+                        }
                     }
                     JobStateEphemeral::ReadyButDelayed => {
                         reconsider_job!(jobs, upstream_idx, new_signals, gen.get());
